@@ -14,6 +14,7 @@ RULES = {
     "C06.R4": "moves: QBytes _to_copy keeps the payload dtype and converts the scale only; QBits _to_copy refuses dtype changes, moves payload/zero-point without dtype and rebuilds through create(); detach keeps the class",
     "C06.R5": "flatten/unflatten agreement: key sets, length assertions, constructor argument mapping",
     "C06.R6": "in move/copy handlers the payload never meets arithmetic",
+    "C06.R8": "scale/axis agreement: a handler that changes the payload geometry keeps the scale only when it is 0-dim (per-tensor); scalar rescaling only for operands that do not broadcast (is_scalar definition)",
     "C06.R7": "quantizers capture size()/stride() of the source before any rebinding and pass them to the constructor",
 }
 
